@@ -30,7 +30,14 @@ def configs(ctx):
              for k in (1, 2, 3) for sp, sq in ((0, 1), (1, 1), (3, 2))]
     more += [L(T=4, K=2, SP=1, SQ=1, Bonus=1, Eos=True), L(T=4, K=3, SP=2, SQ=1, Bonus=1, H0=1),
              L(T=4, K=2, SP=1, SQ=2, Bonus=2, Eos=True, H0=2), L(T=3, NC=3, D=3, K=3, SP=1, SQ=1, Bonus=2, Eos=True)]
-    return q + more
+    return [c for c in q + more if fits(c)]
+
+
+def fits(cfg):
+    """TLC integers are 32-bit: the order-preserving image vis^SQ * lm^SP of the largest possible total must stay below 2^31"""
+    vis = cfg["D"] ** cfg["T"]
+    lm = max(3 * cfg["Bonus"], cfg["M"]) ** cfg["T"] * (3 if cfg["Eos"] else 1)
+    return vis ** cfg["SQ"] * lm ** cfg["SP"] < 2 ** 31
 
 
 def _lab(cfg):
